@@ -116,6 +116,11 @@ def generate(tier, seed, ctx):
                 for v in outr + [inr[0], inr[-1]]:
                     b = builder_at(p, rng, rng.choice([0, 5]), 0, [])
                     p.call({'op': 'store_int' if signed else 'store_uint', 'obj': b, 'v': big(v), 'w': w})
+        # the empty field (## 0): only the value 0 fits it
+        p = fresh()
+        for v in (0, 1, 5, -1, 255, 1 << 64):
+            b = builder_at(p, rng, rng.choice([0, 5, 1023]), 0, [])
+            p.call({'op': 'store_uint', 'obj': b, 'v': big(v), 'w': 0})
         for L in (2, 3, 4, 5):
             for signed in (False, True):
                 inr, outr = bk.var_menu(L, signed, rng)
